@@ -32,4 +32,9 @@ func init() {
 	})
 	Register("C04", func(c *RunCtx) { c04Enumerate(c) })
 	Register("C06", func(c *RunCtx) { c06Enumerate(c) })
+	Register("C19", func(c *RunCtx) {
+		c19Direct(c)
+		c.Flush(false)
+		c19System(c)
+	})
 }
